@@ -111,6 +111,7 @@ def elemOf (s : String) : Option (Elem Lit) :=
 
 def Bptk.C04.Ex.mapLit {α β : Type} (f : α → β) : Ex α → Ex β
   | .lit a => .lit (f a)
+  | .int i => .int i
   | .ref n => .ref n
   | .time => .time
   | .dt => .dt
